@@ -58,9 +58,15 @@ impl<C: CellType> BcInterpreter<C> {
                 if let Instr::BrZ(_, _) | Instr::BrNZ(_, _) = inst {
                     emit_limit(&mut insts, 1);
                 }
-                if let Instr::Scan(_, shift) = inst {
+                if let Instr::Scan(cond, shift) = inst {
                     if shift == 0 {
+                        // A stationary scan never terminates once it is entered, so it uses
+                        // up the complete budget. It costs nothing if the cell is zero.
+                        let skip_at = insts.len();
+                        emit(&mut insts, Instr::BrZ(cond, 0), safe);
                         emit_limit(&mut insts, usize::MAX);
+                        let skip = (insts.len() - skip_at) as isize;
+                        adjust_branch(&mut insts[skip_at..], skip);
                     }
                 }
             }
